@@ -1493,12 +1493,15 @@ func (l *lexer) scanCmdSubst(r rune) bool {
 		<-ll.done
 		if ll.err != nil {
 			l.mu.Lock()
-			l.err = ll.err
-			if err, ok := l.err.(Error); ok && len(ll.stack) == 0 && r == '`' {
-				l.err = Error{
-					Name: err.Name,
-					Pos:  err.Pos,
-					Msg:  "syntax error: unexpected '`'",
+			if _, ok := l.err.(Error); ok || l.err == nil {
+				// keep the error of the source reader
+				l.err = ll.err
+				if err, ok := l.err.(Error); ok && len(ll.stack) == 0 && r == '`' {
+					l.err = Error{
+						Name: err.Name,
+						Pos:  err.Pos,
+						Msg:  "syntax error: unexpected '`'",
+					}
 				}
 			}
 			l.mu.Unlock()
